@@ -5,6 +5,7 @@ import (
 	"go/constant"
 	"go/token"
 	"go/types"
+	"math/bits"
 	"reflect"
 	"strconv"
 	"strings"
@@ -156,6 +157,21 @@ func (w *Walker) reflectModel(name string, callee *ssa.Function, args []*Term, r
 		if tag, ok := constStr(args[0]); ok {
 			if key, ok := constStr(args[1]); ok {
 				return mkConst(constant.MakeString(reflect.StructTag(tag).Get(key)), rt)
+			}
+		}
+	case strings.HasPrefix(name, "bits.") && len(args) == 1:
+		// math/bits on a constant (the width of a type computed from ^T(0))
+		if v, ok := args[0].Int64(); ok && v >= 0 {
+			u := uint64(v)
+			switch name {
+			case "bits.Len64", "bits.Len32", "bits.Len16", "bits.Len8", "bits.Len":
+				return mkInt(int64(bits.Len64(u)), rt)
+			case "bits.OnesCount64", "bits.OnesCount32", "bits.OnesCount16", "bits.OnesCount8", "bits.OnesCount":
+				return mkInt(int64(bits.OnesCount64(u)), rt)
+			case "bits.TrailingZeros64", "bits.TrailingZeros32", "bits.TrailingZeros16", "bits.TrailingZeros8", "bits.TrailingZeros":
+				if u != 0 {
+					return mkInt(int64(bits.TrailingZeros64(u)), rt)
+				}
 			}
 		}
 	case name == "errors.Is" && len(args) == 2:
